@@ -5,6 +5,7 @@ NAME = "fivecells"
 MODULE = "cspuz.puzzle.fivecells"
 FUNC = "solve_fivecells"
 T2_PER_FILE = 2
+TIER1 = ("Fivecells", "solve_fivecells_model")
 
 
 def call(mod, pb):
@@ -57,3 +58,40 @@ def tier2(tier, rng):
     for (h, w, holes, k) in [(1, 1, 0, 4), (1, 5, 0, 2), (5, 1, 0, 2), (2, 2, 0, 4)]:
         for _ in range(k if th else 1):
             yield _rand(rng, h, w, holes, 0.4)
+
+
+def tier1_problems(tier, rng):
+    """program-capture tie: every layout of the boards with <= 2 cells over {stray hole -3, hole -2, no number -1,
+    numbers 0..5 (5 and 7 lie beyond the four sides)}, samples of all layouts of the boards with 3..6 cells in both
+    orientations, random larger and non-square boards up to 7x7 / 1xN / Nx1 with holes (many, few, none) and numbers
+    from -4 to 7, boards without usable cells and boards without cells (ValueError in
+    division_connected_variable_groups), and grids with a missing / short trailing row (IndexError in the first loop)"""
+    th = tier == "thorough"
+    vals = [-3, -2, -1, 0, 1, 2, 3, 4, 5]
+    for (h, w) in [(1, 1), (1, 2), (2, 1)]:
+        for g in L.all_grids(h, w, vals):
+            yield {"h": h, "w": w, "grid": g}
+    for (h, w) in [(1, 3), (3, 1), (2, 2), (1, 4), (4, 1)]:
+        for g in L.sample(rng, L.all_grids(h, w, vals), 300 if th else 40):
+            yield {"h": h, "w": w, "grid": g}
+    for (h, w) in [(1, 5), (5, 1), (2, 3), (3, 2), (1, 6), (6, 1)]:
+        for _ in range(100 if th else 16):
+            yield {"h": h, "w": w, "grid": [[rng.choice(vals) for _ in range(w)] for _ in range(h)]}
+    wide = [-4, -3, -2, -1, -1, -1, 0, 1, 2, 3, 4, 5, 7]
+    for (h, w) in [(3, 3), (2, 5), (5, 2), (4, 4), (3, 6), (6, 5), (1, 7), (7, 1), (7, 7), (4, 7), (7, 3), (5, 5)]:
+        for (holes, pnum) in [(0, 0.3), (max(1, h * w // 6), 0.5), (h * w // 2, 0.8)] * (3 if th else 1):
+            yield _rand(rng, h, w, holes, pnum)
+        yield {"h": h, "w": w, "grid": [[rng.choice(wide) for _ in range(w)] for _ in range(h)]}
+        yield {"h": h, "w": w, "grid": [[-1] * w for _ in range(h)]}
+    # no usable cell / no cell at all: int_array(0, 0, -1) raises ValueError
+    for (h, w) in [(1, 1), (2, 2), (1, 4), (3, 2)]:
+        yield {"h": h, "w": w, "grid": [[rng.choice([-2, -3, -7]) for _ in range(w)] for _ in range(h)]}
+    for (h, w) in [(0, 0), (0, 2), (2, 0)]:
+        yield {"h": h, "w": w, "grid": [[] for _ in range(h)]}
+    # malformed: the grid lacks its last row or the last entry of its last row (also when no cell is usable)
+    for (h, w) in [(1, 1), (1, 2), (2, 2), (2, 3), (3, 2), (4, 4)]:
+        full = [[rng.choice(vals) for _ in range(w)] for _ in range(h)]
+        yield {"h": h, "w": w, "grid": full[:-1]}
+        yield {"h": h, "w": w, "grid": full[:-1] + [full[-1][:-1]]}
+    yield {"h": 2, "w": 2, "grid": [[-2, -2], [-2]]}
+    yield {"h": 1, "w": 3, "grid": [[-1, 2]]}
